@@ -26,6 +26,7 @@ EvMatch(me, je) ==
        [] me.ev = "app_ans"                  -> me.a = je.a /\ MsgEq(me.m, je.m)
        [] me.ev = "submit"                   -> me.a = je.a /\ HdrEq(me.m, je.m) /\ me.r = je.r
        [] me.ev = "select"                   -> me.a = je.a /\ me.offered = je.offered
+       [] me.ev = "thread_exit"              -> me.th = je.th /\ me.exc = je.exc
        [] me.ev = "stop_done"                -> me.r = je.r /\ me.listen = je.listen /\ me.nodeThreads = je.nodeThreads
        [] me.ev = "req_result"               -> me.k = je.k /\ me.r = je.r /\ (me.r = "NotRoutable" \/ (me.hbh = je.hbh /\ me.e2e = je.e2e))
 OutMatch(mo, jo) == Len(mo) = Len(jo) /\ \A i \in 1..Len(mo) : EvMatch(mo[i], jo[i])
